@@ -10,8 +10,13 @@ def run(rep, ctx):
     rng = rng_for(ctx['seed'], 'c03-rules')
     docs = rc.documents(rng, 60 if ctx['tier'] == 'quick' else 1500)
     n_bad = 0
+    all_rules = [None, '', 'wayback', 'wayback_uk', 'jsessionid,wayback', 'wayback,wayback_uk,jsessionid']
+    hand = set(rc.HAND_PAIRS)
+    work = []
     for i, (a, b) in enumerate(docs):
-        rules = [None, '', 'wayback', 'wayback_uk', 'jsessionid,wayback', 'wayback,wayback_uk,jsessionid'][i % 6]
+        for rules in (all_rules if (a, b) in hand else [all_rules[i % 6]]):      # the hand-picked pairs under every value
+            work.append((a, b, rules))
+    for a, b, rules in work:
         for x, y in ((a, a), (b, b), (a, b)):
             rep.count(('rules', rules, x, y), x != y)
             try:
